@@ -104,6 +104,7 @@ type Node struct {
 	Produced []*nom.Momentum
 
 	stopped bool
+	consLdb *leveldb.DB
 }
 
 // Open builds a node on dir (created if needed) with the given genesis and pillar keys.
@@ -120,7 +121,11 @@ func MockGenesis() store.Genesis { return genesis.NewGenesis(g.EmbeddedGenesis) 
 func (n *Node) open() {
 	n.Mgr = db.NewLevelDBManager(n.Dir)
 	ch := chain.NewChain(n.Mgr, n.Gen)
-	cs := consensus.NewConsensus(db.NewMemDB(), ch, true)
+	// the consensus cache is persistent, as in the real node (zenon.NewZenon: cfg.NewLevelDB("consensus")):
+	// a restart reads election results and points back from disk
+	consDB, consLdb := db.NewLevelDB(n.Dir + "-consensus")
+	n.consLdb = consLdb
+	cs := consensus.NewConsensus(consDB, ch, true)
 	n.Chain = ch
 	n.Cons = cs
 	n.Sup = vm.NewSupervisor(ch, cs)
@@ -151,6 +156,10 @@ func (n *Node) Stop() {
 	}
 	_ = n.Cons.Stop()
 	_ = n.Chain.Stop()
+	if n.consLdb != nil {
+		_ = n.consLdb.Close()
+		n.consLdb = nil
+	}
 	n.stopped = true
 }
 
@@ -164,6 +173,7 @@ func (n *Node) Restart() {
 func (n *Node) Destroy() {
 	n.Stop()
 	_ = os.RemoveAll(n.Dir)
+	_ = os.RemoveAll(n.Dir + "-consensus")
 }
 
 // ---- protocol.Broadcaster (the client boundary of the pillar) ----
